@@ -840,6 +840,9 @@ func TestC01(t *testing.T) {
 		if rapid.IntRange(0, 3).Draw(t, "kind") == 0 {
 			n := rapid.IntRange(2, 9).Draw(t, "nchars")
 			c.Chars = "abcdefghijk"[:n]
+			if rapid.Bool().Draw(t, "mixed_width") {
+				c.Chars = string([]rune("aé正b💩cßλz")[:n]) // characters of 1 to 4 bytes
+			}
 			return c
 		}
 		c.Words = gen.WordList(t, gen.WordListOpts{Min: 2, Max: 14})
